@@ -65,6 +65,7 @@ META["C16"] = dict(
     "enumerated. Part B: a case is (component kinds, DAG, declaration order, link specs), distinct by that tuple; every case "
     "has >=1 link so all are non-trivial.",
     gates={
+        "st.e2e.list_of_instances_as_target": g(80, 800), "st.e2e.union_typed_target": g(30, 300),
         "st.e2e.holder_components": g(100, 1000), "st.e2e.links_to_nested_target": g(40, 400),
         "mon.graph.evaluations": g(150000, 2000000),
         "ev.graph.cyclic_reported": g(50000, 500000),
@@ -235,6 +236,7 @@ META["C03"] = dict(
     rule="a case is (parser shape, exit_on_error, method, tuple of token/value classes); distinct by hash; every case is non-trivial "
     "(a call was made and classified).",
     gates={
+        "mon.exit_on_error_modes_compared": g(2000, 20000), "st.shape.dcf": g(500, 5000),
         "mon.outcome_class": g(4000, 60000),
         "st.accepted": g(300, 4000),
         "st.rejected": g(1500, 20000),
@@ -421,6 +423,7 @@ META["C14"] = dict(
     rule="a case is (spec kind, declared hint, channel) / (short form, class, init_args names) / (nested shape) / (class-change argv); "
     "distinct by hash; all are non-trivial (a decision or an instantiation is judged).",
     gates={
+        "mon.two_source_short_forms": g(300, 3000), "st.two_sources.dict-entry": g(80, 800), "st.two_sources.subcommand-class-group": g(40, 400),
         "mon.spec_decisions": g(3000, 30000), "mon.instantiations": g(500, 5000), "mon.short_vs_explicit": g(2000, 20000),
         "mon.nested": g(300, 3000), "mon.class_change": g(300, 3000),
         "st.spec.valid-explicit.accepted": g(200, 2000), "st.spec.wrong-class.rejected": g(200, 2000), "st.spec.non-class-import.rejected": g(200, 2000),
@@ -502,6 +505,7 @@ META["C18"] = dict(
     rule="a case is (fault kind, fault position, sub-file features, multifile, overwrite, set of pre-existing files); distinct by "
     "hash; non-trivial = save was called on an accepted configuration.",
     gates={
+        "mon.failed_then_successful_save_sequences": g(100, 1000),
         "mon.saves.none": g(150, 1500), "mon.saves.invalid-value": g(300, 6000), "mon.saves.unserialisable-value": g(80, 1500),
         "mon.saves.oserror-at-write-open": g(150, 3000), "mon.saved_reparsed": g(80, 800),
         "st.mode.multifile.overwrite": g(30, 300), "st.mode.multifile.no-overwrite": g(30, 300),
@@ -531,6 +535,7 @@ META["C19"] = dict(
     rule="A: a case is (set of mode flags, path kind); B: (depth, entry method, failing depth, path-typed keys present). Distinct "
     "by hash; every case is non-trivial (a decision is judged or logged as unspecified).",
     gates={
+        "st.nested.config_dir_through_symlink": g(300, 3000), "st.nested.append_key_with_relative_paths": g(100, 1000),
         "mon.path_type_in_parser_checks": g(500, 5000),
         "mon.path_mode_checks": g(10000, 150000), "st.accept": g(500, 8000), "st.reject": g(5000, 80000),
         "permission_bits_enforced": g(4, 16),
@@ -586,6 +591,7 @@ META["C08"] = dict(
     rule="a case is (multiset of argument type skeletons) for generated parsers, (set of class features) for the class parser, "
     "(path spelling, entry method, validity) for symlinked configs; distinct by hash; each runs 10-20 monitored calls.",
     gates={
+        "st.parser_with_default_config_file": g(30, 300), "mon.lazy_default_instance_used": g(30, 300),
         "mon.calls_snapshotted": g(3000, 40000), "mon.accepted_configs": g(100, 1500), "mon.instantiate_pairs": g(100, 1500),
         "mon.instances_checked": g(500, 8000), "mon.merge_config_class_change": g(100, 1500), "mon.symlinked_config_parses": g(80, 1000),
         "ev.parse_object.raise": g(100, 1000), "ev.validate-invalid.raise": g(50, 500), "ev.dump.yaml.return": g(100, 1000),
